@@ -371,7 +371,7 @@ step(Machine *M, const vop *o)
 			return -1000;
 		E->sock = (int) (S - M->socks);
 		if (n[0] == 'l') {
-			int tr = (int) ((a1 < 0 ? -a1 : a1) % 3);
+			int tr = (int) ((a1 < 0 ? -a1 : a1) % 4);
 			M->nurl++;
 			if (tr == 0)
 				snprintf(buf, sizeof buf, "inproc://api-%d-%d", (int) getpid(), M->nurl);
@@ -380,15 +380,21 @@ step(Machine *M, const vop *o)
 				unlink(buf);
 				M->paths.push_back(buf);
 				snprintf(buf, sizeof buf, "ipc:///tmp/verif-api-%d-%d", (int) getpid(), M->nurl);
-			} else
+			} else if (tr == 2)
 				snprintf(buf, sizeof buf, "tcp://127.0.0.1:0");
+			else
+				snprintf(buf, sizeof buf, "ws://127.0.0.1:0/api%d", M->nurl); // (round 7: SP over WebSocket - HTTP upgrade, frames)
 			int rv = nng_listen(S->s, buf, &E->l, 0);
 			if (rv != 0)
 				return rv;
-			if (tr == 2) {
+			if (tr >= 2) {
 				int port = 0;
-				if (nng_listener_get_int(E->l, NNG_OPT_BOUND_PORT, &port) == 0)
-					snprintf(buf, sizeof buf, "tcp://127.0.0.1:%d", port);
+				if (nng_listener_get_int(E->l, NNG_OPT_BOUND_PORT, &port) == 0) {
+					if (tr == 2)
+						snprintf(buf, sizeof buf, "tcp://127.0.0.1:%d", port);
+					else
+						snprintf(buf, sizeof buf, "ws://127.0.0.1:%d/api%d", port, M->nurl);
+				}
 			}
 			E->url       = buf;
 			E->is_dialer = false;
@@ -856,7 +862,7 @@ inline std::string
 gen_program()
 {
 	int         t  = *pbt::range<int>(0, kNTemplates - 1);
-	int         T  = *pbt::welem<int>({{4, 0}, {2, 1}, {2, 2}});
+	int         T  = *pbt::welem<int>({{4, 0}, {2, 1}, {2, 2}, {2, 3}});
 	int         F  = *pbt::welem<int>({{3, 0}, {1, 1}});
 	std::string tp = kTemplates[t];
 	std::vector<std::string> lines;
